@@ -30,6 +30,70 @@ def _run_one(i):
     return r
 
 
+def _child(i, conn):
+    try:
+        conn.send(_run_one(i))
+    except BaseException as e:  # noqa
+        try:
+            conn.send({'name': _CASES[i][0], 'violations': [], 'known': [],
+                       'inconclusive': [f'worker failed: {type(e).__name__}: {e}'], 'stats': {}})
+        except Exception:  # noqa
+            pass
+    finally:
+        conn.close()
+
+
+def _schedule(cases, jobs, deadline, verbose):
+    """one forked process per case, at most `jobs` at a time, each under a wall-clock deadline
+    (a solver call that ignores its own timeout must not hang the check: the case is reported
+    as inconclusive instead)"""
+    ctx = mp.get_context('fork')
+    pending = list(range(len(cases)))
+    running = {}
+    results = []
+
+    def show(r):
+        if verbose:
+            print(f"  [{r['name']}] paths={r.get('paths')} obl={r.get('obligations')} "
+                  f"viol={len(r['violations'])} known={len(r['known'])} inc={len(r['inconclusive'])} "
+                  f"{r.get('wall_s')}s", flush=True)
+
+    while pending or running:
+        while pending and len(running) < max(1, jobs):
+            i = pending.pop(0)
+            pc, cc = ctx.Pipe(duplex=False)
+            p = ctx.Process(target=_child, args=(i, cc), daemon=True)
+            p.start()
+            cc.close()
+            running[i] = (p, pc, time.time())
+        done = []
+        for i, (p, pc, t0) in running.items():
+            r = None
+            if pc.poll(0.02):
+                try:
+                    r = pc.recv()
+                except EOFError:
+                    r = {'name': cases[i][0], 'violations': [], 'known': [], 'stats': {},
+                         'inconclusive': ['worker died without a result']}
+            elif not p.is_alive():
+                r = {'name': cases[i][0], 'violations': [], 'known': [], 'stats': {},
+                     'inconclusive': [f'worker exited with code {p.exitcode} without a result']}
+            elif time.time() - t0 > deadline:
+                p.kill()
+                r = {'name': cases[i][0], 'violations': [], 'known': [], 'stats': {}, 'wall_s': round(time.time() - t0, 1),
+                     'inconclusive': [f'case exceeded its wall-clock budget of {deadline:.0f}s (killed)']}
+            if r is not None:
+                done.append(i)
+                p.join(timeout=2)
+                results.append(r)
+                show(r)
+        for i in done:
+            del running[i]
+        if not done:
+            time.sleep(0.05)
+    return results
+
+
 def main(argv=None):
     global _CASES, _PROP
     ap = argparse.ArgumentParser()
@@ -70,25 +134,8 @@ def main(argv=None):
     if args.case:
         cases = [c for c in cases if args.case in c[0]]
     _CASES = cases
-    if args.j > 1 and len(cases) > 1:
-        ctx = mp.get_context('fork')
-        with ctx.Pool(min(args.j, len(cases))) as pool:
-            results = []
-            for r in pool.imap_unordered(_run_one, range(len(cases)), chunksize=1):
-                results.append(r)
-                if args.v:
-                    print(f"  [{r['name']}] paths={r.get('paths')} obl={r.get('obligations')} "
-                          f"viol={len(r['violations'])} known={len(r['known'])} inc={len(r['inconclusive'])} "
-                          f"{r.get('wall_s')}s", flush=True)
-    else:
-        results = []
-        for i in range(len(cases)):
-            r = _run_one(i)
-            results.append(r)
-            if args.v:
-                print(f"  [{r['name']}] paths={r.get('paths')} obl={r.get('obligations')} "
-                      f"viol={len(r['violations'])} known={len(r['known'])} inc={len(r['inconclusive'])} "
-                      f"{r.get('wall_s')}s", flush=True)
+    deadline = float(os.environ.get('VERIF_CASE_TIMEOUT', '420' if args.tier == 'quick' else '2400'))
+    results = _schedule(cases, args.j, deadline, args.v)
     results.sort(key=lambda r: r['name'])
     from vf import evidence
     code = evidence.report(prop, args.tier, seed, mod, results, time.time() - t0,
